@@ -261,7 +261,9 @@ def run_task(sp: Dict[str, Any], tier: str, seed: int) -> Dict[str, Any]:
             if len(set(win)) != 1:
                 facts["constant_generator_varies"] = len(set(win))
         # --- eager re-generation of a few keys through the plain un-jitted call
-        n_eager = (2 if tier == "quick" else 3) - (1 if t_gen > 6.0 else 0)  # costly compiles: one key fewer
+        # costly un-jitted generators get one key fewer; decided by the task, never by the clock
+        heavy = sp["mode"] in ("connector_pair", "binpack_pair") or sp["family"] in ("mmst", "rubiks_cube")
+        n_eager = (2 if tier == "quick" else 3) - (1 if heavy else 0)
         picks = sorted({ids[(seed * 7 + j * max(1, K // max(1, n_eager)) + 1) % K] for j in range(n_eager)})
         validated = 0
         err = None
